@@ -5,14 +5,17 @@
 # With --test the copied repository's own test suite is run first (a mutation must keep it green).
 set -e
 PATCH="$1"; PROP="$2"; TIER="${3:-quick}"; TEST="$4"
-M=/dev/shm/verif-mut
-# one rehearsal at a time: the scratch copies are shared (warm cargo target)
-exec 9>/dev/shm/verif-mut.lock; flock 9
+# MUT_SLOT=<k> selects another pair of scratch copies (own lock, own warm cargo target), so that rehearsals can run side by side;
+# VERIF_SRC=<dir> rehearses another checkout of /verif (a git worktree of it) instead of /verif itself.
+M=/dev/shm/verif-mut${MUT_SLOT:-}
+V=${VERIF_SRC:-/verif}
+# one rehearsal at a time per slot: the scratch copies are shared (warm cargo target)
+exec 9>$M.lock; flock 9
 mkdir -p $M/repo $M/verif $M/work
 # rsync keeps modification times: a file put back to an OLDER version (the previous run's patch undone) would look unchanged
 # to cargo and the previous mutation would stay compiled in.  Every file rsync rewrites is touched.
 rsync -ai --delete --exclude target --exclude .git /repo/ $M/repo/ | grep '^>f' | cut -d' ' -f2- | while read f; do touch "$M/repo/$f"; done
-rsync -a --delete --exclude target --exclude .git --exclude evidence --exclude replays /verif/ $M/verif/
+rsync -a --delete --exclude target --exclude .git --exclude evidence --exclude replays $V/ $M/verif/
 mkdir -p $M/verif/evidence $M/verif/replays
 sed -i "s#/repo/#$M/repo/#g" $M/verif/harness/Cargo.toml $M/verif/harness/src/main.rs $M/verif/cfkit/Cargo.toml
 if [ "$PATCH" != "-" ]; then (cd $M/repo && patch -p1 --quiet < "$PATCH"); fi
